@@ -38,7 +38,7 @@ ALLOPS = ["AddHeading", "SetStyle", "AddStyle", "ModifyStyle", "RemoveStyle", "G
           "Reopen", "OpenForeign", "Markdown", "AddParagraph", "AddHeader", "AddFooter", "AddTable"]
 
 # argument classes
-SMALL = dict(Lv={1, 4}, Maxes={3}, StyIds={"Quote", "C1", "Zz9"}, AddIds={"C1"}, ModIds={"Heading1", "C1"}, RmIds={"Heading1", "C1"},
+SMALL = dict(Lv={2, 4}, Maxes={3}, StyIds={"Quote", "C1", "Zz9"}, AddIds={"C1"}, ModIds={"Heading2", "C1"}, RmIds={"Heading2", "C1"},
              Tpls={"TableGrid"}, TblIds={"ab", "TS1"}, ListTypes={"bullet", "number"}, Shapes={"lists", "toc"}, Kinds={"all"},
              ViasC={"AddStyle"}, HowsC={"mutate", "replace"}, FreshC={True})
 WIDE = dict(Lv=set(range(1, 10)), Maxes={1, 3, 9}, StyIds={"Quote", "Title", "Heading2", "C1", "Q1", "F1", "TOC2", "Zz9"},
@@ -60,23 +60,33 @@ def gencfg(ctx, name, ops, args, depth):
     return ctx.cfg(name, "SpecGen", consts(ops, args, depth=depth), invariants=["Emit"])
 
 
-CORE = ["AddHeading", "SetStyle", "AddStyle", "ModifyStyle", "RemoveStyle", "GenerateTOC", "AutoGenerateTOC", "UpdateTOC",
-        "ApplyTableStyle", "CreateCustomTableStyle", "AddListItem", "AddNote", "Save", "Reopen", "OpenForeign", "Markdown"]
+# focused alphabets explored exhaustively deeper than the whole alphabet:
+# (name, ops, argument classes, quick depth (0 = thorough only), thorough depth)
+GROUPS = [
+    ("styles", ["AddStyle", "ModifyStyle", "RemoveStyle", "SetStyle", "AddHeading", "Save", "Reopen", "OpenForeign"],
+     dict(SMALL, Lv={2}, StyIds={"C1"}, ModIds={"C1", "Heading2"}, RmIds={"C1"}, Shapes={"plain"}, HowsC={"replace"}, FreshC={False}), 3, 4),
+    ("toc", ["AddHeading", "GenerateTOC", "AutoGenerateTOC", "UpdateTOC", "TOCEntry", "RemoveStyle", "Reopen", "OpenForeign", "Markdown"],
+     dict(SMALL, Lv={2}, Maxes={3}, RmIds={"14"}, Shapes={"toc"}, Kinds={"heads"}, FreshC={False}), 3, 4),
+    ("registries", ["AddListItem", "AddNote", "Reopen", "OpenForeign"],
+     dict(SMALL, ListTypes={"bullet"}, Shapes={"lists"}, FreshC={True}), 4, 5),
+    ("registries2", ["AddListItem", "AddNote", "RemoveNote", "Reopen", "OpenForeign", "Save"],
+     dict(SMALL, ListTypes={"bullet", "number"}, Shapes={"lists", "listslow"}, FreshC={True, False}), 0, 4),
+    ("tables", ["AddStyle", "ApplyTableStyle", "CreateCustomTableStyle", "RemoveStyle", "Reopen", "OpenForeign", "Save"],
+     dict(SMALL, AddIds={"TS1"}, RmIds={"TS1", "ab"}, Tpls={"TableGrid", "TableColorful2"}, TblIds={"ab", "TS1", "FT1"}, Shapes={"tbl"}, FreshC={False}), 0, 3),
+]
 
 
 def judge(ctx, cases, tag):
     obs = ctx.run_exec("defs", cases, tag)
     res = ctx.tlc_trace("Defs_Trace.tla", "Defs_Trace.cfg", obs, tag)
+    dev = ctx.extra_cov.setdefault("model_deviations", [])
     for w in res:
-        if w["sig"][0] == "M13":
-            ctx.extra_cov.setdefault("model_deviations", [])
-            if w["sig"] not in ctx.extra_cov["model_deviations"]:
-                ctx.extra_cov["model_deviations"].append(w["sig"])
+        if w["sig"][0] == "M13" and w["sig"] not in dev:
+            dev.append(w["sig"])
     return res
 
 
-def count_ops(ctx, cases):
-    cnt = ctx.extra_cov.setdefault("op_counts", collections.Counter())
+def count_ops(cnt, cases):
     for c in cases:
         for s in c["steps"]:
             cnt[s["op"]] += 1
@@ -87,27 +97,30 @@ def pipeline(ctx, cases_by=None):
     ctx.assumptions.extend(ASSUMPTIONS)
     ctx.tlc_mc("Defs_MC.tla", "Defs_MC_quick.cfg" if q else "Defs_MC_thorough.cfg")
     if cases_by is None:
+        cnt = collections.Counter()
+        allc = []
         # (1) every behaviour of the whole alphabet (small argument classes) to depth 2 / 3
         d1 = 2 if q else 3
-        c1 = ctx.tlc_gen("Defs_MC.tla", gencfg(ctx, "gen_bfs_all.cfg", ALLOPS, SMALL, d1), "bfsall")
-        count_ops(ctx, c1)
-        judge(ctx, c1, "bfsall")
-        # (2) every behaviour of the core alphabet to depth 3 / 4
-        d2 = 3 if q else 4
-        core = [o for o in CORE if not (q and o in ("AutoGenerateTOC", "Markdown"))]
-        c2 = ctx.tlc_gen("Defs_MC.tla", gencfg(ctx, "gen_bfs_core.cfg", core, dict(SMALL, Lv={1}, StyIds={"C1"}, ModIds={"C1", "Heading1"}, RmIds={"C1"}, TblIds={"TS1"},
-                                                                                   ListTypes={"bullet"}, HowsC={"replace"}, Shapes={"lists"}), d2), "bfscore")
-        count_ops(ctx, c2)
-        judge(ctx, c2, "bfscore")
+        depths = {"all": d1}
+        allc += ctx.tlc_gen("Defs_MC.tla", gencfg(ctx, "gen_bfs_all.cfg", ALLOPS, SMALL, d1), "bfsall")
+        # (2) every behaviour of each focused alphabet, deeper
+        for name, ops, args, dq, dt in GROUPS:
+            d2 = dq if q else dt
+            if d2 == 0:
+                continue
+            allc += ctx.tlc_gen("Defs_MC.tla", gencfg(ctx, "gen_bfs_%s.cfg" % name, ops, args, d2), "bfs" + name)
+            depths[name] = d2
         ctx.exhaustive = True
         # (3) seeded random long behaviours over the wide argument classes
         d3 = 10 if q else 16
-        c3 = ctx.tlc_gen("Defs_MC.tla", gencfg(ctx, "gen_sim.cfg", ALLOPS, WIDE, d3), "sim", mode="sim", num=12 if q else 250, depth=d3 + 1)
-        count_ops(ctx, c3)
-        judge(ctx, c3, "sim")
-        ctx.extra_cov["bounds"] = {"bfs_all_depth": d1, "bfs_core_depth": d2, "sim_depth": d3,
-                                   "variants_per_behaviour": 2, "exhaustive_over": "operation sequences of the stated alphabets/argument classes up to the BFS depths"}
-        ctx.extra_cov["op_counts"] = dict(ctx.extra_cov["op_counts"])
+        allc += ctx.tlc_gen("Defs_MC.tla", gencfg(ctx, "gen_sim.cfg", ALLOPS, WIDE, d3), "sim", mode="sim", num=6 if q else 60, depth=d3 + 1)
+        count_ops(cnt, allc)
+        # one execution + one judge run over everything (case ids are unique across generators)
+        ctx.cases_by_tag["gen"] = {c["id"]: c for c in allc}
+        judge(ctx, allc, "gen")
+        ctx.extra_cov["bounds"] = {"bfs_depths": depths, "sim_depth": d3, "variants_per_behaviour": 2,
+                                   "exhaustive_over": "operation sequences of the stated alphabets/argument classes up to the BFS depths"}
+        ctx.extra_cov["op_counts"] = dict(cnt)
     else:
         judge(ctx, cases_by, "replay")
     return ctx.finish(LEVEL, RULE)
